@@ -906,9 +906,16 @@ class Element(object):
                 if not isinstance(value, ElementList):
                     children = value
                     value = ElementList(self)
+                previous = self.__dict__.get('children')
                 super(Element, self).__setattr__(name, value)
-                for c in children:
-                    self.add(c)
+                try:
+                    for c in children:
+                        self.add(c)
+                except Exception:
+                    if previous is not None:
+                        # one of the new children is refused: the element keeps the children it had
+                        super(Element, self).__setattr__(name, previous)
+                    raise
             else:
                 super(Element, self).__setattr__(name, value)
         elif hasattr(self, 'children'):
